@@ -17,6 +17,7 @@ owns new `__instances` / `__strong_cache` / lock but executes the very same `__c
 import sys, os, re, gc, threading, inspect, weakref, datetime, random, warnings, time
 
 STEP_TIMEOUT = 20.0
+PROBE = datetime.datetime(2020, 6, 15, 12, 0)
 
 
 class InfraError(Exception):
@@ -792,6 +793,8 @@ def run_threads(fac, scripts, policy, env_rng=None, env_rate=0.0, max_steps=5000
                         if lock.owner == idx:
                             leaked.append({"thread": idx, "op": list(op)})       # NOT reset: a follow-on deadlock must show
                         continue
+                    if o is not None:
+                        o.utcoffset(PROBE); o.tzname(PROBE)       # a half-built zone would fail here ("never observe …")
                     cached = op[0] == "call" and (fac.cached_key(op[1]) if isinstance(fac, GettzFac) else True)
                     e = {"t": idx, "key": op[1], "obj": o, "cached": cached, "cls": classes.of(o), "none": o is None,
                          "epoch": None, "exc": False, "cmp": fac.compares_identity(op[1], cached),
@@ -910,7 +913,9 @@ def run_threads(fac, scripts, policy, env_rng=None, env_rate=0.0, max_steps=5000
     return {"labels": labels, "expect": expect, "trace": trace, "choices": choices, "rets": rets, "errors": errors,
             "deadlock": deadlock, "all_returned": all_returned, "steps": steps,
             "strong": fac.strong_keys(), "weak": fac.weak_keys(), "cap": fac.cap_now(), "request": req,
-            "dups": live_duplicates(fac, live_refs), "lock_leaked": leaked, "not_fresh": stale,
+            "dups": live_duplicates(fac, live_refs),
+            # the same, ignoring epochs: two live objects for one key where a cache_clear separates the two requests
+            "dups_any_epoch": live_duplicates(fac, [(k[0], o) for (k, o) in live_refs]), "lock_leaked": leaked, "not_fresh": stale,
             "lock_balanced": lock.acquires == lock.releases and lock.owner is None,
             "schedule": [c for (_, c, _) in choices], "unmapped": unmapped}
 
